@@ -42,7 +42,8 @@ EXPLANATION = (
     "identical arguments. (M5) The rejection written is the component's text. Handler side "
     "effects before a first await and task scheduling order are not decided. "
     "(M3, cut) Where a request class assembles its ParsedURL by hand, the URL the chain is consulted with and the path the handler acts on are the same canonical cut of the request line. "
-    "(M3f) The fingerprint function is sha256 over DER, untruncated and pure (no module state or cache)."
+    "(M3f) The fingerprint function is sha256 over DER, untruncated and pure (no module state or cache). "
+    "(M3p) The peer's identity comes from get_peer_certificate() only, never from the chain APIs."
 )
 
 
